@@ -271,7 +271,15 @@ def odefun(ctx, F, x0, y0, tol=None, degree=None, method='taylor', verbose=False
         F = lambda x, y: [F_(x, y[0])]
         y0 = [y0]
         return_vector = False
-    ser, xb = ode_taylor(ctx, F, x0, y0, tol_prec, degree)
+    # (the first segment like the later ones: its boundary x0+radius must
+    # not be rounded to the caller's precision, which can move it by more
+    # than the step when x0 has more bits than that)
+    orig = ctx.prec
+    try:
+        ctx.prec = workprec
+        ser, xb = ode_taylor(ctx, F, x0, y0, tol_prec, degree)
+    finally:
+        ctx.prec = orig
     series_boundaries = [x0, xb]
     series_data = [(ser, x0, xb)]
     # We will be working with vectors of Taylor series
